@@ -157,6 +157,29 @@ def cases(seed, tier):
             c["script"][0]["inject"] = [{"id": "p", "at": {"msg": rng.choice([4, 5, 6]), "plus": rng.choice([0, 1, 2])}, "do": "pause"}]
             c["script"][0]["decisions"] = [{"do": "resume"}]
             yield c
+    # the plan is being stopped or aborted and its clean-up moves a device whose status then fails: the clean-up is a
+    # plan like any other, the failure reaches it at the wait on that group
+    if pg.motors:
+        m = pg.motors[0]
+        for j in range(2):
+            g = pg.group()
+            fin = [msg(S, "null"), msg(S, "set", m, 0.5, group=g), msg(S, "wait", None, group=g), msg(S, "null")]
+            if rng.random() < 0.5:
+                fin = [{"op": "try", "site": S(), "body": fin, "handlers": [{"exc": "FailedStatus", "body": [msg(S, "null")], "reraise": rng.random() < 0.4}]}]
+            plan = [msg(S, "checkpoint"), msg(S, "null"), {"op": "try", "site": S(), "body": [msg(S, "sleep", None, 1.0), msg(S, "null")], "finally": fin}]
+            c = copy.deepcopy(case)
+            c["variant"] = f"failure-in-cleanup-after-terminator-{j}"
+            c["script"][0]["plan"] = plan
+            for dev in c["devices"].values():
+                dev.pop("faults", None)
+            c["devices"][m]["velocity"] = 1.0
+            c["devices"][m]["faults"] = {"set#0": {"kind": "status_fail", "exc": "RuntimeError", "delay": rng.choice([0.0, 0.1])}}
+            if rng.random() < 0.5:
+                c["script"][0]["inject"] = [{"id": "t", "at": {"msg": 3, "plus": rng.choice([1, 2])}, "do": rng.choice(["stop", "abort"])}]
+            else:
+                c["script"][0]["inject"] = [{"id": "p", "at": {"msg": 3, "plus": rng.choice([1, 2])}, "do": "pause"}]
+                c["script"][0]["decisions"] = [{"do": rng.choice(["stop", "abort"])}]
+            yield c
     # the messages that address several objects at once ('locate' a, b ...): one of the devices fails, synchronously
     # or after really awaiting; the error belongs to that yield like any other
     if len(pg.motors) >= 1:
@@ -281,7 +304,7 @@ def check(res):
             return out
     # one failure is delivered once: nothing else is thrown into the plan (no terminating request is scheduled in
     # this workload), e.g. a stale failed status left in its group failing a later wait
-    extra = [e for e in plan if e.d["what"] == "thrown" and e.seq != thrown.seq]
+    extra = [e for e in plan if e.d["what"] == "thrown" and e.seq != thrown.seq and not str(e.d["exc"]).startswith(("RequestStop", "RequestAbort"))]
     if extra:
         x = extra[0]
         out.append(
